@@ -5,13 +5,18 @@ import (
 	"math/rand"
 	"os"
 	"path/filepath"
+	"runtime"
 	"strings"
 	"sync"
 	"time"
 
+	"github.com/lindb/roaring"
+
+	"github.com/lindb/lindb/index"
+	"github.com/lindb/lindb/index/model"
 	"github.com/lindb/lindb/models"
+	"github.com/lindb/lindb/pkg/trie"
 	"github.com/lindb/lindb/verif/internal/node"
-	"github.com/lindb/lindb/verif/internal/seam"
 )
 
 // Directed scenarios: small fixed data sets that make the narrow classes deterministic, and flushes that complete while
@@ -183,8 +188,9 @@ func scenarioNarrowClasses(res *caseResult, dir string) {
 	res.count("directed_scenarios.narrow-classes", 1)
 }
 
-// parker blocks the first table-file mapping whose path contains match (the lazily opened reader of a kv table a
-// query's snapshot.Load touches) until release is closed.
+// parker blocks the first call of a decode seam whose goroutine stack contains match (a function name of the lookup
+// to be parked) until release is closed. The seams are called while a lookup decodes what it loaded from a kv table
+// file: after it took its kv snapshot, before it reads the memory stores, holding no kv lock.
 type parker struct {
 	mu      sync.Mutex
 	match   string
@@ -193,15 +199,24 @@ type parker struct {
 	release chan struct{}
 }
 
-func (p *parker) afterMap(path string) {
+func (p *parker) maybePark() {
 	p.mu.Lock()
-	hit := p.armed && strings.Contains(path, p.match)
-	if hit {
-		p.armed = false
+	armed := p.armed
+	p.mu.Unlock()
+	if !armed {
+		return
 	}
+	buf := make([]byte, 16<<10)
+	buf = buf[:runtime.Stack(buf, false)]
+	if !strings.Contains(string(buf), p.match) {
+		return
+	}
+	p.mu.Lock()
+	hit := p.armed
+	p.armed = false
 	p.mu.Unlock()
 	if hit {
-		p.parked <- path
+		p.parked <- p.match
 		<-p.release
 	}
 }
@@ -216,7 +231,12 @@ func scenarioFlushWindow(res *caseResult, dir, which string) {
 		return
 	}
 	defer d.close()
-	defer seam.Restore()
+	origBitmap, origTrie := index.VerifGetBitmapUnmarshal(), model.VerifGetTrieFn()
+	restore := func() {
+		index.VerifSetBitmapUnmarshal(origBitmap)
+		model.VerifSetGetTrieFn(origTrie)
+	}
+	defer restore()
 	shard, _ := d.n.Shard(0)
 	idxDB, metaDB := shard.IndexDB(), d.n.DB.MetaDB()
 	batch := func(prefix string, k int) []map[string]string {
@@ -247,13 +267,13 @@ func scenarioFlushWindow(res *caseResult, dir, which string) {
 		idxDB.PrepareFlush()
 		flush = idxDB.Flush
 		if which == "inverted" {
-			p.match = string(filepath.Separator) + "inverted" + string(filepath.Separator)
+			p.match = "invertedIndex).findSeriesIDsByKeys"
 			cond = one("host", "=", "h")
 		} else {
-			p.match = string(filepath.Separator) + "metric" + string(filepath.Separator)
+			p.match = "invertedIndex).getSeriesIDs"
 			cond = nil
 		}
-	case "dictionary-like", "dictionary-regex":
+	case "dictionary-like", "dictionary-regex", "dictionary-collect":
 		// A is flushed while B is already in the mutable store (so B's id lookups never touched A's file), then B becomes
 		// immutable and its flush completes while the query holds the bucket of the old snapshot
 		d.write("m", batch("a", 6)...)
@@ -268,14 +288,26 @@ func scenarioFlushWindow(res *caseResult, dir, which string) {
 		d.logf("meta PrepareFlush (B immutable)")
 		metaDB.PrepareFlush()
 		flush = metaDB.Flush
-		p.match = string(filepath.Separator) + "tv" + string(filepath.Separator)
-		if which == "dictionary-like" {
+		if which == "dictionary-collect" {
+			// the index is still in memory, every series is selected; the values of the grouping key are resolved last
+			p.match = "indexKVStore).CollectKVs"
+			cond = nil
+		} else if which == "dictionary-like" {
+			p.match = "indexKVStore).findValuesByLike"
 			cond = one("uid", "like", "b*")
 		} else {
+			p.match = "indexKVStore).FindValuesByRegexp"
 			cond = one("uid", "=~", "^b")
 		}
 	}
-	seam.InstallKV(seam.Direct{}, &seam.Observer{AfterMap: p.afterMap})
+	index.VerifSetBitmapUnmarshal(func(b *roaring.Bitmap, data []byte) (int64, error) {
+		p.maybePark()
+		return origBitmap(b, data)
+	})
+	model.VerifSetGetTrieFn(func() trie.SuccinctTrie {
+		p.maybePark()
+		return origTrie()
+	})
 	p.mu.Lock()
 	p.armed = true
 	p.mu.Unlock()
@@ -289,11 +321,11 @@ func scenarioFlushWindow(res *caseResult, dir, which string) {
 	parkedAt := ""
 	select {
 	case parkedAt = <-p.parked:
-		d.logf("query parked while mapping %s", parkedAt)
+		d.logf("query parked inside %s (decoding what it loaded from the table files of its snapshot)", parkedAt)
 		res.count("queries_parked_between_snapshot_and_memory_read", 1)
 	case o := <-done:
 		// the query never mapped a file of the family: the window was not reached
-		d.logf("query finished without mapping a file matching %s (ok=%v)", p.match, o.ok)
+		d.logf("query finished without decoding table data inside %s (ok=%v)", p.match, o.ok)
 		res.count("flush_window_not_reached."+which, 1)
 		return
 	case <-time.After(60 * time.Second):
@@ -323,7 +355,7 @@ func scenarioFlushWindow(res *caseResult, dir, which string) {
 		res.Notes = append(res.Notes, "watchdog: flush-window "+which+": query did not finish after release")
 		return
 	}
-	seam.Restore()
+	restore()
 	// afterwards (no window): the same query must be right
 	d.expect("m", cond, []string{"uid"}, "C10/select/after-flush-window/"+which, "the same query after the flush")
 	res.count("directed_scenarios.flush-window-"+which, 1)
@@ -333,9 +365,9 @@ func runDirectedCase(idx int, dir, tier string, seed int64) *caseResult {
 	res := &caseResult{Kind: "directed", Index: idx}
 	_ = rand.New(rand.NewSource(seed))
 	scenarioNarrowClasses(res, dir)
-	for _, w := range []string{"inverted", "metric", "dictionary-like", "dictionary-regex"} {
+	for _, w := range []string{"inverted", "metric", "dictionary-like", "dictionary-regex", "dictionary-collect"} {
 		scenarioFlushWindow(res, dir, w)
 	}
-	res.Sample = map[string]interface{}{"case": "directed", "scenarios": []string{"narrow-classes", "flush-window-inverted", "flush-window-metric", "flush-window-dictionary-like", "flush-window-dictionary-regex"}}
+	res.Sample = map[string]interface{}{"case": "directed", "scenarios": []string{"narrow-classes", "flush-window-inverted", "flush-window-metric", "flush-window-dictionary-like", "flush-window-dictionary-regex", "flush-window-dictionary-collect"}}
 	return res
 }
